@@ -14,11 +14,8 @@ def c12_jobs(rng, quick):
 
     def add(sym, c, p):
         jobs.append(gen.enc(sym, c if isinstance(c, (bytes, list)) else onedim.U(c), p))
-    vers = list(range(1, 41)) if not quick else list(range(1, 9)) + sorted(rng.sample(range(9, 41), 5))
-    for v in vers:
+    for v in range(1, 41):
         for level in range(4):
-            if quick and v > 8 and level != v % 4:
-                continue
             md = rng.choice([1, 2, 4])
             n = max(0, C01.cap(v, level, md) - rng.randint(0, 3))
             add("qr", C01.filler(rng, md, n, 1), (level, {1: 1, 2: 2, 4: 3}[md]))
@@ -34,6 +31,9 @@ def c12_jobs(rng, quick):
             add("aztec", bytes(rng.choice(b"abc XYZ012.,") for _ in range(n)), (pct, 0))
         for req in ([-2, 3, 9] if quick else [-4, -3, -2, -1, 1, 2, 3, 5, 8, 9, 15, 22, 23, 32]):
             add("aztec", "Az1", (pct, req))
+    # every symbol size once (mode message layer/word fields and check-word count of every size), percentage rotating with the seed
+    for k, req in enumerate(list(range(-4, 0)) + list(range(1, 33))):
+        add("aztec", "Size %d" % req, ([10, 23, 33, 50][(k + rng.randrange(4)) % 4], req))
     # explicit layer requests filled close to what the requested size can hold, with payloads that need much bit stuffing
     # (long runs of equal bits): the check-word share is smallest exactly at that boundary
     for req in ([-2, -4, 2, 4, 7] if quick else [-1, -2, -3, -4, 1, 2, 3, 4, 5, 6, 8, 9, 12, 16, 22, 23, 27, 32]):
